@@ -35,6 +35,11 @@ def classify(e, a, iv):
     return k + '-ok'
 
 
+def rf(rng):
+    """a flag set: the four implemented flags (low bits) and, sometimes, the six unimplemented ones"""
+    return rng.randrange(16) + ((rng.getrandbits(6) << 4) if rng.random() < 0.4 else 0)
+
+
 def generate(rng, tier, boost):
     big = tier == 'thorough' or boost
     cases = []
@@ -49,12 +54,12 @@ def generate(rng, tier, boost):
             if n == 2 and not big and rng.random() > 0.5:
                 continue
             st = rng.choice(STACKS)
-            cases.append((601, [st, bytes(combo), rng.randrange(16)]))
+            cases.append((601, [st, bytes(combo), rf(rng)]))
     # grammar generated
     for k in range(20000 if big else 2500):
         st = [G.ritem(rng) for _ in range(rng.choice([0, 0, 1, 2, 3, 6]))]
         prog, _ = G.program(rng, len(st))
-        f = rng.randrange(16)
+        f = rf(rng)
         cases.append((601, [st, prog, f]))
         if k % 4 == 0:
             cases.append((601, [st, G.mutate(rng, prog), f]))
@@ -63,7 +68,7 @@ def generate(rng, tier, boost):
     # VerifyScript: pairs incl. P2SH
     import hashlib
     for k in range(6000 if big else 900):
-        f = rng.randrange(16)
+        f = rf(rng)
         if rng.random() < 0.4:
             redeem, _ = G.program(rng, 1, 10)
             try:
